@@ -13,9 +13,10 @@ Fixpoint check_run (ok : state -> op -> state -> list out -> bool) (s : state) (
   end.
 
 (* ---------------------------------------------------------------- C02 *)
-Definition is_cred (w : welem) : bool := match w with WAuth _ | WResponse | WLegacy => true | _ => false end.
+Definition is_cred (w : welem) : bool := match w with WAuth _ | WResponse | WLegacy | WHandshake => true | _ => false end.
 
-(* mandatory TLS: no authentication data leaves over the plain socket *)
+(* mandatory TLS: no authentication data (SASL, legacy auth, the component handshake digest) leaves over the
+   plain socket *)
 Definition ok_mandatory (s : state) (_ : op) (_ : state) (outs : list out) : bool :=
   negb (f_tls_mandatory s) ||
   forallb (fun o => match o with OWire false w => negb (is_cred w) | _ => true end) outs.
